@@ -86,5 +86,16 @@ def newOID (s : Bytes) : Option Bytes :=
   | some b => if b.length = 20 then some b else none
   | none => none
 
+/-- `words[i]` for a `[]string` with a signed index -/
+def indexL (l : List Bytes) (i : Int) : Res Bytes :=
+  if i < 0 then .panic "index-out-of-range" else
+  match l[i.toNat]? with
+  | some w => .ok w
+  | none => .panic "index-out-of-range"
+/-- `NewOID(s)` as (value, error) -/
+def newOIDR (w : Bytes) : Res Bytes := match newOID w with | some o => .ok o | none => .err "oid"
+/-- `strconv.ParseUint(s, base, bits)` as (value, error) -/
+def parseUintR (w : Bytes) (base bits : Nat) : Res Nat := match parseUint w base bits with | some v => .ok v | none => .err "size"
+
 end Go
 end GitSizer
